@@ -108,6 +108,12 @@ BUDGET = {'quick': 8, 'thorough': 120}
 def run(pid, tier, seed):
     out = []
     rng = random.Random((seed or 0) * 1000003 + 17)
+    from . import replayrun
+    exe, berr = replayrun.build()
+    if exe is None:
+        # the runner uses the public library API; if a change of that API keeps it from building, nothing is run (and said so)
+        return [{'suite': name, 'obligation': '%s.bounded.%s' % (pid, name), 'level': 'bounded', 'stands_in_for': w, 'bound': b, 'executions_of_real_code': 0,
+                 'failing_input': None, 'error': 'replay runner does not build against this tree, suite not run: ' + (berr or '')[-300:]} for name, fn, w, b in SUITES.get(pid, [])]
     for name, fn, not_under_contract, bound in SUITES.get(pid, []):
         t0 = time.time()
         from . import replayrun
